@@ -1,0 +1,12 @@
+//go:build verif
+// +build verif
+
+package events
+
+import abci "github.com/tendermint/tendermint/abci/types"
+
+// VerifProcessEvent exposes the provider's chain-event decoder (processEvent)
+// to external verification harnesses.
+func VerifProcessEvent(bev abci.Event) (interface{}, bool) {
+	return processEvent(bev)
+}
